@@ -63,122 +63,137 @@ func galias(args []string) error {
 		return err
 	}
 	defer f.Close()
-	var states []tla.State
-	n, err := tla.ReadDump(f, func(st tla.State) error { states = append(states, st); return nil })
+	rep := run.NewReport()
+	var cloneDst [run.MaxWorkers]*simdjson.ParsedJson
+	var sampleStates []tla.State
+	process := func(states []tla.State) {
+		for _, avx512 := range run.Kernels() {
+			run.SetKernel(avx512)
+			run.ParallelFor(len(states), func(w, i int) {
+				st := states[i]
+				text0 := st["text0"].Bytes()
+				cp := st["copy"].B
+				hist := st["hist"].E
+				var docsO, docsC []abs.Value
+				for _, d := range st["docsO"].E {
+					docsO = append(docsO, abs.FromTLA(d))
+				}
+				for _, d := range st["docsC"].E {
+					docsC = append(docsC, abs.FromTLA(d))
+				}
+				prev, how := st["prev"].S, st["how"].S
+				cfg := map[string]interface{}{"avx512": avx512, "copy": cp, "history": fmt.Sprint(histString(hist)), "reused_after": prev, "option": how}
+				bad := func(what, want, got string) {
+					rep.Add(run.Mismatch{Property: *prop, Sig: what + ":" + string(text0) + ":" + fmt.Sprint(histString(hist)) + fmt.Sprint(cp) + prev + how, Text: string(text0), Cfg: cfg, Want: want, Got: got, Detail: what})
+				}
+				input := append([]byte{}, text0...)
+				// the object may be a reused one whose previous call ran with either option
+				var reuse *simdjson.ParsedJson
+				if prev != "fresh" {
+					other := []byte(`{"zz":"yy","q":["w\n",12],"zz2":{"k":"vvvvvvvvvvvvvvvvvvvvvvvvvvvvvvvvvvvvvvvv"}}`)
+					r0, perr := simdjson.Parse(other, nil, simdjson.WithCopyStrings(prev == "copy"))
+					if perr != nil {
+						bad("parse", "the previous document is valid", perr.Error())
+						return
+					}
+					reuse = r0
+				}
+				var pj *simdjson.ParsedJson
+				var err error
+				if how == "default" {
+					pj, err = simdjson.Parse(input, reuse) // string copying is the default
+				} else {
+					pj, err = run.Parse(input, run.Cfg{AVX512: avx512, Copy: cp}, reuse)
+				}
+				rep.Count("evaluations", 1)
+				if err != nil {
+					bad("parse", "accept", err.Error())
+					return
+				}
+				var clone *simdjson.ParsedJson
+				for _, h := range hist {
+					switch h.Field("op").S {
+					case "scribble":
+						for k := range input {
+							input[k] = 0xFF
+						}
+					case "clone":
+						if i%3 == 0 {
+							clone = pj.Clone(nil)
+						} else if i%3 == 1 {
+							clone = pj.Clone(&simdjson.ParsedJson{}) // an empty destination
+						} else {
+							clone = pj.Clone(cloneDst[w]) // capacity reuse of an earlier clone
+							cloneDst[w] = clone
+						}
+					case "edit":
+						target := pj
+						if h.Field("who").S == "c" {
+							target = clone
+						}
+						if eerr := applyAliasEdit(target, h.Field("p").IntSlice(), h.Field("k").S, h.Field("x")); eerr != nil {
+							bad("edit", "edit applies", eerr.Error())
+							return
+						}
+					}
+				}
+				if cerr := read.Compare(pj, docsO); cerr != nil {
+					bad("original", abs.Value{K: 'a', Arr: docsO}.String(), cerr.Error())
+				}
+				if clone != nil {
+					if cerr := read.Compare(clone, docsC); cerr != nil {
+						bad("clone", abs.Value{K: 'a', Arr: docsC}.String(), cerr.Error())
+					}
+				}
+				// marshal and serialize must see the same documents
+				for k, obj := range []*simdjson.ParsedJson{pj, clone} {
+					if obj == nil {
+						continue
+					}
+					want := docsO
+					if k == 1 {
+						want = docsC
+					}
+					s := simdjson.NewSerializer()
+					back, derr := s.Deserialize(s.Serialize(nil, *obj), nil)
+					if derr != nil {
+						bad("serialize", "round trip", derr.Error())
+					} else if cerr := read.Compare(back, want); cerr != nil {
+						bad("serialize", "same document after a round trip", cerr.Error())
+					}
+				}
+				if len(hist) > 0 {
+					rep.Count("nontrivial", 1)
+				}
+			})
+		}
+
+	}
+	var batch []tla.State
+	n, err := tla.ReadDump(f, func(st tla.State) error {
+		batch = append(batch, st)
+		if len(sampleStates) < 6 && len(batch)%9973 == 1 {
+			sampleStates = append(sampleStates, st)
+		}
+		if len(batch) >= 40000 { // bounded memory: the dump of the thorough tier has more than a million states
+			process(batch)
+			batch = batch[:0]
+		}
+		return nil
+	})
 	if err != nil {
 		return err
 	}
+	process(batch)
 	if *expect >= 0 && int64(n) != *expect {
 		return fmt.Errorf("dump has %d states, TLC reported %d", n, *expect)
 	}
-	rep := run.NewReport()
 	rep.Cases = int64(n)
-	var cloneDst [run.MaxWorkers]*simdjson.ParsedJson
-	for _, avx512 := range run.Kernels() {
-		run.SetKernel(avx512)
-		run.ParallelFor(len(states), func(w, i int) {
-			st := states[i]
-			text0 := st["text0"].Bytes()
-			cp := st["copy"].B
-			hist := st["hist"].E
-			var docsO, docsC []abs.Value
-			for _, d := range st["docsO"].E {
-				docsO = append(docsO, abs.FromTLA(d))
-			}
-			for _, d := range st["docsC"].E {
-				docsC = append(docsC, abs.FromTLA(d))
-			}
-			prev, how := st["prev"].S, st["how"].S
-			cfg := map[string]interface{}{"avx512": avx512, "copy": cp, "history": fmt.Sprint(histString(hist)), "reused_after": prev, "option": how}
-			bad := func(what, want, got string) {
-				rep.Add(run.Mismatch{Property: *prop, Sig: what + ":" + string(text0) + ":" + fmt.Sprint(histString(hist)) + fmt.Sprint(cp) + prev + how, Text: string(text0), Cfg: cfg, Want: want, Got: got, Detail: what})
-			}
-			input := append([]byte{}, text0...)
-			// the object may be a reused one whose previous call ran with either option
-			var reuse *simdjson.ParsedJson
-			if prev != "fresh" {
-				other := []byte(`{"zz":"yy","q":["w\n",12],"zz2":{"k":"vvvvvvvvvvvvvvvvvvvvvvvvvvvvvvvvvvvvvvvv"}}`)
-				r0, perr := simdjson.Parse(other, nil, simdjson.WithCopyStrings(prev == "copy"))
-				if perr != nil {
-					bad("parse", "the previous document is valid", perr.Error())
-					return
-				}
-				reuse = r0
-			}
-			var pj *simdjson.ParsedJson
-			var err error
-			if how == "default" {
-				pj, err = simdjson.Parse(input, reuse) // string copying is the default
-			} else {
-				pj, err = run.Parse(input, run.Cfg{AVX512: avx512, Copy: cp}, reuse)
-			}
-			rep.Count("evaluations", 1)
-			if err != nil {
-				bad("parse", "accept", err.Error())
-				return
-			}
-			var clone *simdjson.ParsedJson
-			for _, h := range hist {
-				switch h.Field("op").S {
-				case "scribble":
-					for k := range input {
-						input[k] = 0xFF
-					}
-				case "clone":
-					if i%3 == 0 {
-						clone = pj.Clone(nil)
-					} else if i%3 == 1 {
-						clone = pj.Clone(&simdjson.ParsedJson{}) // an empty destination
-					} else {
-						clone = pj.Clone(cloneDst[w]) // capacity reuse of an earlier clone
-						cloneDst[w] = clone
-					}
-				case "edit":
-					target := pj
-					if h.Field("who").S == "c" {
-						target = clone
-					}
-					if eerr := applyAliasEdit(target, h.Field("p").IntSlice(), h.Field("k").S, h.Field("x")); eerr != nil {
-						bad("edit", "edit applies", eerr.Error())
-						return
-					}
-				}
-			}
-			if cerr := read.Compare(pj, docsO); cerr != nil {
-				bad("original", abs.Value{K: 'a', Arr: docsO}.String(), cerr.Error())
-			}
-			if clone != nil {
-				if cerr := read.Compare(clone, docsC); cerr != nil {
-					bad("clone", abs.Value{K: 'a', Arr: docsC}.String(), cerr.Error())
-				}
-			}
-			// marshal and serialize must see the same documents
-			for k, obj := range []*simdjson.ParsedJson{pj, clone} {
-				if obj == nil {
-					continue
-				}
-				want := docsO
-				if k == 1 {
-					want = docsC
-				}
-				s := simdjson.NewSerializer()
-				back, derr := s.Deserialize(s.Serialize(nil, *obj), nil)
-				if derr != nil {
-					bad("serialize", "round trip", derr.Error())
-				} else if cerr := read.Compare(back, want); cerr != nil {
-					bad("serialize", "same document after a round trip", cerr.Error())
-				}
-			}
-			if len(hist) > 0 {
-				rep.Count("nontrivial", 1)
-			}
-		})
-	}
 	run.SetKernel(true)
 	rep.Evaluations = rep.Counters["evaluations"]
 	rep.Nontrivial = rep.Counters["nontrivial"]
-	for i := 0; i < len(states); i += 1 + len(states)/5 {
-		rep.Sample(map[string]interface{}{"text": string(states[i]["text0"].Bytes()), "copy": states[i]["copy"].B, "history": histString(states[i]["hist"].E)}, 6)
+	for _, st := range sampleStates {
+		rep.Sample(map[string]interface{}{"text": string(st["text0"].Bytes()), "copy": st["copy"].B, "history": histString(st["hist"].E)}, 6)
 	}
 	return rep.Write(*out)
 }
